@@ -84,7 +84,7 @@ contract('bptk._set_state', file=F_BPTK, props=['C19', 'C20'], params=dict(self=
 def reconstruct_post(C):
     t1, t0 = C.self._instances, C.old.self._instances
     u = C.instance_uuid
-    return And(t1.has(u), C.fresh(t1[u]['instance']), t1[u]['time'] == C.time, t1[u]['timeout'].z == C.timeout.z,
+    return And(wf_im(C.self), t1.has(u), C.fresh(t1[u]['instance']), t1[u]['time'] == C.time, t1[u]['timeout'].z == C.timeout.z,
                t1[u]['instance'].session_state.is_none == C.session_state.is_none,
                Implies(Not(C.session_state.is_none),
                        And(t1[u]['instance'].session_state.v['step'] == C.session_state.v['step'],
@@ -99,14 +99,23 @@ def reconstruct_post(C):
 
 contract('InstanceManager.reconstruct_instance', file=F_SRV, props=['C19', 'C20', 'C16'], allocates=True,
          params=dict(self=IM, instance_uuid=STR, timeout=TIMEOUT, time=DATETIME, session_state=TOpt(SESSION)),
-         locals=dict(instance_data=INSTREC), ensures=reconstruct_post,
+         locals=dict(instance_data=INSTREC), requires=lambda C: wf_im(C.self), ensures=reconstruct_post,
          modifies=['InstanceManager._instances', 'bptk.session_state'])
 
 # ---- adapters -------------------------------------------------------------------------------------------------
-contract('Adapter._save_instance', trusted=True, props=['C19', 'C20'], params=dict(self=AD, state=IS),
-         note='storage back end (file / database): may raise', raises={'Exception': lambda C: True})
+
+
+def _count_save(C, st):
+    st.ghost['saves'] = SV(INT, st.ghost['saves'].z + 1)
+    st.ghost['saved_obj'] = SV(IS, C.state.z)
+
+
+contract('Adapter._save_instance', trusted=True, props=['C19', 'C20', 'C16'], params=dict(self=AD, state=IS), ghost=GH_SAVE,
+         note='storage back end (file / database): may raise; every call is recorded in the ghost log ($saves, $saved_obj)',
+         raises={'Exception': lambda C: True}, ghost_mods=['$saves', '$saved_obj'], ghost_update=_count_save)
 contract('Adapter._load_instance', trusted=True, props=['C19', 'C20'], params=dict(self=AD, instance_uuid=STR), returns=IS, allocates=True,
-         note='storage back end: an InstanceState or None')
+         note='storage back end: an InstanceState or None; what it returns for an id is the state stored under that id',
+         ensures=lambda C: Implies(C.result != NULL, C.result.instance_id == C.instance_uuid))
 contract('Adapter._save_state', trusted=True, props=['C19'], params=dict(self=AD, state=TList(IS)), raises={'Exception': lambda C: True})
 contract('Adapter._load_state', trusted=True, props=['C19', 'C20'], params=dict(self=AD), returns=TList(IS), allocates=True)
 
@@ -120,6 +129,9 @@ def save_instance_post(C):
     s0 = C.old_view(s) if hasattr(C, 'old_view') else None
     live = And(s != NULL, Not(C.old_view(s).state.is_none))
     return And(
+        # EVERY call hands exactly this state object to the storage back end, once -- whatever was saved before, for
+        # this or any other instance (C16: no cross-talk through the adapter; C20: the file is rewritten after every request)
+        C.g('saves') == C.old.g('saves') + 1, C.g('saved_obj').z == s.z,
         # with compression, and only then, both logs are replaced by their compressed form; nothing else changes
         Implies(And(C.old.self.compress, live), And(s.state.v['settings_log'] == CS(C.old_view(s).state.v['settings_log']),
                                                      s.state.v['results_log'] == CR(C.old_view(s).state.v['results_log']),
@@ -134,15 +146,13 @@ def _old_view(self, v):
 
 Ctx.old_view = _old_view
 
-contract('Adapter.save_instance', file=F_AD, src_name='ExternalStateAdapter.save_instance', props=['C19', 'C20'], params=dict(self=AD, state=IS),
-         ensures=save_instance_post, raises={'Exception': lambda C: True}, modifies=['InstanceState.state'])
+contract('Adapter.save_instance', file=F_AD, src_name='ExternalStateAdapter.save_instance', props=['C19', 'C20', 'C16'], params=dict(self=AD, state=IS),
+         ghost=GH_SAVE, ghost_mods=['$saves', '$saved_obj'], ensures=save_instance_post, raises={'Exception': lambda C: True}, modifies=['InstanceState.state'])
 
 
 def load_instance_post(C):
     r = C.result
-    return Implies(And(r != NULL, Not(r.state.is_none), C.old.self.compress),
-                   # decompress on load exactly when compress on save
-                   z3.BoolVal(True))
+    return Implies(r != NULL, r.instance_id == C.instance_uuid)
 
 
 contract('Adapter.load_instance', file=F_AD, src_name='ExternalStateAdapter.load_instance', props=['C19', 'C20'],
@@ -167,11 +177,11 @@ contract('FileAdapter._load_instance', file=F_AD, props=['C20'], params=dict(sel
 
 c = contract('BptkServer._load_state_resource', file=F_SRV, props=['C20'], ghost=srv.GH, allocates=True,
              params=dict(self=SRV), returns=TRef('Response'),
-             requires=lambda C: And(C.self._instance_manager != NULL),
+             requires=lambda C: And(C.self._instance_manager != NULL, wf_im(C.self._instance_manager)),
              # a list that contains None entries (unreadable files) is tolerated: nothing is raised by the loop itself
              ensures=lambda C: z3.BoolVal(True),
              raises={'Exception': lambda C: Not(C.self._external_state_adapter.is_null)},
-             loops={0: lambda C: z3.BoolVal(True)},
+             loops={0: lambda C: wf_im(C.self._instance_manager)},
              modifies=srv.RESP_FIELDS + ['InstanceManager._instances', 'bptk.session_state', 'InstanceState.state'])
 c.globals = srv.SRV_GLOBALS
 contract('Adapter.load_state', file=F_AD, src_name='ExternalStateAdapter.load_state', props=['C19', 'C20'], params=dict(self=AD), returns=TList(IS),
